@@ -9,10 +9,14 @@ import (
 
 	"github.com/nspcc-dev/neo-go/pkg/core/native/noderoles"
 	"github.com/nspcc-dev/neo-go/pkg/core/state"
+	"github.com/nspcc-dev/neo-go/pkg/core/transaction"
 	"github.com/nspcc-dev/neo-go/pkg/io"
+	"github.com/nspcc-dev/neo-go/pkg/smartcontract/callflag"
 	"github.com/nspcc-dev/neo-go/pkg/smartcontract/trigger"
 	"github.com/nspcc-dev/neo-go/pkg/util"
 	"github.com/nspcc-dev/neo-go/pkg/vm/stackitem"
+
+	"verif/sim"
 )
 
 // Observation is everything the C01 statement lists, taken from one node for
@@ -172,6 +176,10 @@ func Observe(n *Node, w *world) (*Observation, error) {
 	o.Detail["governance"] = strings.Join(gov, " ")
 
 	pol := fmt.Sprintf("fpb=%d exec=%d sp=%d mtb=%d", bc.FeePerByte(), bc.GetBaseExecFee(), bc.GetStoragePrice(), bc.GetMaxTraceableBlocks())
+	pol += fmt.Sprintf(" vub=%d ms=%d attr=", bc.GetMaxValidUntilBlockIncrement(), bc.GetMillisecondsPerBlock())
+	for _, at := range []transaction.AttrType{transaction.HighPriority, transaction.OracleResponseT, transaction.NotValidBeforeT, transaction.ConflictsT, transaction.NotaryAssistedT} {
+		pol += fmt.Sprintf("%d,", bc.CalculateAttributesFee(&transaction.Transaction{Attributes: []transaction.Attribute{{Type: at, Value: &transaction.NotaryAssisted{NKeys: 1}}}}))
+	}
 	o.Sections["policy"] = pol
 	o.Detail["policy"] = pol
 
@@ -187,7 +195,9 @@ func Observe(n *Node, w *world) (*Observation, error) {
 	for _, hh := range hs {
 		c := bc.GetContractState(hh)
 		if c != nil {
-			cs = append(cs, fmt.Sprintf("k:%s:id=%d:upd=%d:nef=%d", hh.StringLE()[:8], c.ID, c.UpdateCounter, c.NEF.Checksum))
+			// the price of a read-only call as the node would charge it now (execution fee factor, whitelisted fees)
+			cs = append(cs, fmt.Sprintf("k:%s:id=%d:upd=%d:nef=%d:get=%s:put=%s", hh.StringLE()[:8], c.ID, c.UpdateCounter, c.NEF.Checksum,
+				invokePrice(n, callScript(hh, "get", []byte{1})), invokePrice(n, callScript(hh, "put", []byte{1}, []byte{2}))))
 		}
 	}
 	o.Sections["contracts"] = sum([]byte(strings.Join(cs, "\n")))
@@ -249,4 +259,26 @@ func (o *Observation) Key() string {
 		sb.WriteString(k + "=" + o.Sections[k] + ";")
 	}
 	return sb.String()
+}
+
+// invokePrice runs script in the node's test VM and returns the final state and the GAS it consumed.
+func invokePrice(n *Node, script []byte) string {
+	tx := transaction.New(script, 0)
+	tx.Signers = []transaction.Signer{{Account: util.Uint160{1}, Scopes: transaction.None}}
+	res := "?"
+	if v := sim.Recover(func() {
+		ic, err := n.BC.GetTestVM(trigger.Application, tx, nil)
+		if err != nil {
+			res = "ERR-VM"
+			return
+		}
+		defer ic.Finalize()
+		ic.VM.SetGasLimit(20_00000000)
+		ic.VM.LoadWithFlags(script, callflag.All)
+		_ = ic.VM.Run()
+		res = fmt.Sprintf("%s/%d", ic.VM.State().String(), ic.VM.GasConsumed())
+	}); v != nil {
+		return "PANIC:" + v.Sig
+	}
+	return res
 }
